@@ -20,6 +20,14 @@
               input Value: equal to print_pretty (when the value is printable
               in the model, i.e. holds no float / u64 above i64::MAX), and
               parse_text of these bytes is the Value again
+     F =P | F =T | F text + RF SAME | RF OK.. | RF ERR kind | RF PANIC
+              (in a CASE) the input Value written as a layout file (the P
+              text, the T text, or a re-spaced text) and what the REAL
+              load_layout_from_file answered on it (SAME = what parse+convert
+              answered in memory).  A different answer is a hit C13.file_load
+              and C15.file_load (the service's loader does not read a layout
+              file as its JSON value), a panic a hit C14.file_panic; load_text
+              on the same bytes is compared with the real answer (TEXT)
      PL text  (in a CASE, accepted layouts) the bytes of the file written with
               to_writer_pretty: equal to save_text of the layout, and load_text
               of these bytes is what the real load_layout_from_file answered
@@ -97,6 +105,11 @@ let unesc_line (s : string) : string =
      end else Buffer.add_char b s.[!i]);
     incr i
   done;
+  Buffer.contents b
+
+let hex_of (s : string) : string =
+  let b = Buffer.create (2 * String.length s) in
+  String.iter (fun c -> Buffer.add_string b (Printf.sprintf "%02x" (Char.code c))) s;
   Buffer.contents b
 
 let unhex (s : string) : string =
@@ -207,6 +220,8 @@ type case = {
   r2 : mapping list res option;
   x : string list; w : string list;
   ptext : string option; pltext : string option;
+  ftext : string option;                 (* F: the bytes of the input written as a layout file: "=P", "=T" or the text *)
+  rf : mapping list res option option;   (* RF: what load_layout_from_file answered; Some None = the in-memory answer *)
 }
 
 let cases = ref 0 and distinct = Hashtbl.create 4096 and nontrivial = ref 0
@@ -272,6 +287,29 @@ let check_case (c : case) : unit =
         | Some j' -> if not (x_json_eqb j' j) then report_diff c "TEXT" "from_str(to_string_pretty(value)) = value" "parse_text gives another value"
         | None -> report_diff c "TEXT" "from_str(to_string_pretty(value)) = value" "parse_text rejects the text")
      | None -> ());
+    (* the input as a layout file through the real load_layout_from_file *)
+    (match c.ftext, c.rf with
+     | Some ft, Some rfo ->
+       let rf = match rfo with None -> real | Some o -> o in
+       (match rfo with
+        | Some _ when not (x_outcome_eqb rf real) ->
+          let (a, b) = diff_str rf real in
+          report_hit c "C13.file_load" ("load_layout_from_file(file with this JSON): " ^ a) ("parse_layout_from_json + convert (in memory): " ^ b);
+          report_hit c "C15.file_load" ("load_layout_from_file(file with this JSON): " ^ a) ("parse_layout_from_json + convert (in memory): " ^ b)
+        | _ -> ());
+       (match rf, real with
+        | Panic _, Panic _ -> ()
+        | Panic _, _ -> report_hit c "C14.file_panic" "panic in load_layout_from_file on a file with this JSON" "Ok or Err"
+        | _, _ -> ());
+       let bytes = if ft = "=P" then c.ptext else if ft = "=T" then Some c.text else Some (unesc_line ft) in
+       (match bytes with
+        | Some b ->
+          incr text_load_cmp;
+          let ml = x_load_text (nlist_of_string b) in
+          if not (x_outcome_eqb ml rf) then begin
+            let (x, y) = diff_str rf ml in report_diff c "TEXT" ("load_layout_from_file(input as a file): " ^ x) ("load_text: " ^ y) end
+        | None -> ())
+     | _, _ -> ());
     (* ... and the saved layout file: its bytes, and the reload from these bytes *)
     (match c.pltext, real with
      | Some p, Ok l ->
@@ -323,8 +361,9 @@ type tcase = { tid : int; tkind : string; bytes : string; v : json option option
 
 let check_tcase (t : tcase) : unit =
   incr text_cases;
-  let c = { id = t.tid; kind = t.tkind; text = show_bytes t.bytes; j = None; basic = None; r = None; s = None; r2 = None; x = []; w = [];
-            ptext = None; pltext = None } in
+  (* the input of a text case in reports: the exact bytes in hex (what --replay feeds the real code), then readable *)
+  let c = { id = t.tid; kind = t.tkind; text = "hex:" ^ hex_of (if String.length t.bytes > 4000 then String.sub t.bytes 0 4000 else t.bytes) ^ " " ^ show_bytes t.bytes; j = None; basic = None; r = None; s = None; r2 = None; x = []; w = [];
+            ptext = None; pltext = None; ftext = None; rf = None } in
   List.iter (fun a -> report_diff c "TEXT" a "the real readers of serde_json agree with each other") t.notes;
   let input = nlist_of_string t.bytes in
   (match t.v with
@@ -355,7 +394,7 @@ let check_tcase (t : tcase) : unit =
      let ml = x_load_text input in
      if not (x_outcome_eqb ml real) then begin
        let (a, b) = diff_str real ml in report_diff c "TEXT" ("load_layout_from_file: " ^ a) ("load_text: " ^ b) end;
-     (match real with Panic _ -> report_hit c "C14.panic" "panic in load_layout_from_file" "Ok or Err" | _ -> ())
+     (match real with Panic _ -> report_hit c "C14.file_panic" "panic in load_layout_from_file on a file with these bytes" "Ok or Err" | _ -> ())
    | None -> ())
 
 (* ---------- substitution blocks ---------- *)
@@ -415,7 +454,7 @@ let process (path : string) =
        if starts l "CASE " then begin
          let t = split_ws l in
          cur := Some { id = int_of_string t.(1); kind = t.(2); text = ""; j = None; basic = None; r = None; s = None; r2 = None; x = []; w = [];
-                       ptext = None; pltext = None }
+                       ptext = None; pltext = None; ftext = None; rf = None }
        end else if starts l "TCASE " then begin
          let t = split_ws l in
          tcur := Some { tid = int_of_string t.(1); tkind = t.(2); bytes = ""; v = None; notes = []; lf = None; vp = None; vc = None }
@@ -455,6 +494,9 @@ let process (path : string) =
            else if starts l "J " then cur := Some { c with j = Some (parse_value (split_ws l) 1) }
            else if starts l "S " then cur := Some { c with s = Some (parse_value (split_ws l) 1) }
            else if starts l "P " then cur := Some { c with ptext = Some (unesc_line (String.sub l 2 (String.length l - 2))) }
+           else if starts l "F " then cur := Some { c with ftext = Some (String.sub l 2 (String.length l - 2)) }
+           else if l = "RF SAME" then cur := Some { c with rf = Some None }
+           else if starts l "RF " then cur := Some { c with rf = Some (Some (read_outcome ic (split_ws l))) }
            else if starts l "PL " then cur := Some { c with pltext = Some (unesc_line (String.sub l 3 (String.length l - 3))) }
            else if starts l "B " then begin
              let n = int_of_string (split_ws l).(1) in
